@@ -16,3 +16,12 @@ package shard
 //@ func (*Shard).Backup
 //@   trusted
 //@   pure
+
+// ---- paging of search results (properties C06, C18) ----
+//@ func (*Shard).SearchPoints
+//@   property C06 C18
+//@   requires searchRequest.Offset >= 0 && searchRequest.Limit >= 0
+//@   ensures err == nil && old(searchRequest.Limit) > 0 ==> len(result0) <= old(searchRequest.Limit)
+//@   loop 1 invariant rangeindex >= -1 && rangeindex < len(finalResults)
+//@   loop 2 invariant rangeindex >= -1 && rangeindex < len(searchRequest.Select) && i >= 0 && i < len(finalResults)
+//@   loop 3 invariant rangeindex >= -1 && rangeindex < len(segments) && len(res) > 0
